@@ -20,6 +20,9 @@ if not os.path.exists(base + "/check"):
     sh("cp -r /verif/lean/.lake %s/lean/.lake" % base)
     sh("cp /verif/lean/KcpVerif/Generated.lean %s/lean/KcpVerif/Generated.lean" % base)
 dirs = sorted(glob.glob("/verif/seeded/C*-*"))
+if os.environ.get("SEED_ONLY"):
+    dirs = [d for d in dirs if os.path.basename(d) in os.environ["SEED_ONLY"].split(",")]
+    sh("git -C %s checkout -q --detach && git -C %s reset -q --hard && git -C %s checkout -q --detach %s" % (base, base, base, subprocess.run("git -C /verif rev-parse HEAD", shell=True, capture_output=True, text=True).stdout.strip()))
 for i, d in enumerate(dirs):
     if i % nl != lane:
         continue
